@@ -1,0 +1,6 @@
+//go:build !verif
+
+package client
+
+func vEmit(ev string, obj any, id uint64, n int, s string) {}
+func vGate(name string, obj any, id uint64)                {}
